@@ -97,6 +97,12 @@ def _wint(rnd, bits, signed):
         v = _magic().rint(rnd, lo, hi)
         if v is not None:
             return v
+    if rnd.random() < 0.05:
+        # every data byte equal to a type tag / structure byte: what a
+        # decoder that scans for tags or strides over the wrong width meets
+        b = rnd.choice(b'IilLsubBtfdDSTVAFx\x00\xce')
+        v = int.from_bytes(bytes([b]) * (bits // 8), 'big', signed=signed)
+        return v
     if rnd.random() < 0.6:
         return rnd.choice(gv.width_points(bits, signed))
     if rnd.random() < 0.4:
@@ -264,8 +270,20 @@ def warray(rnd, w, depth=0, max_depth=3, n=None, allow_refuse=True):
         # homogeneous array (what a vectorised fast path would look for):
         # one leaf tag, lengths around the small powers of two and beyond
         tag = rnd.choice(LEAF_TAGS)
-        n = rnd.choice([1, 2, 3, 4, 5, 8, 15, 16, 17, 32, 33, 64, 100,
-                        _magic().rint(rnd, 1, 300) or 7])
+        n = rnd.choice([1, 2, 3, 4, 5, 8, 9, 15, 16, 17, 18, 27, 32, 33, 36,
+                        64, 72, 100, _magic().rint(rnd, 1, 300) or 7])
+        if tag in INT_TAGS and rnd.random() < 0.3:
+            # all data bytes equal to the tag byte itself
+            fmt, bits, signed = INT_TAGS[tag]
+            val = int.from_bytes(tag * (bits // 8), 'big', signed=signed)
+            out = []
+            for _ in range(n):
+                w.tags.append(tag)
+                w.put(tag, 'type-tag')
+                w.put(struct.pack(fmt, val))
+                out.append(val)
+            w.patch(at, struct.pack('>I', len(w.b) - at - 4))
+            return out
         out = [wleaf(rnd, w, tag, allow_refuse) for _ in range(n)]
         w.patch(at, struct.pack('>I', len(w.b) - at - 4))
         return out
